@@ -30,7 +30,73 @@ def plan(tier):
     return {'shards': 4 if tier == 'quick' else 16, 'exhaustive': True}
 
 
-def run_bucket(seq, p, drop):
+class CountingSource:
+    """A dataset whose every iteration counts its own pulls (so that two iterators in flight are told apart)."""
+
+    def __new__(cls, examples):
+        import lazy_dataset
+
+        class _Src(lazy_dataset.Dataset):
+            def __init__(self, examples, counters=None):
+                self.examples = examples
+                self.counters = counters if counters is not None else []
+
+            def copy(self, freeze=False):
+                return _Src(self.examples, self.counters)
+
+            @property
+            def indexable(self):
+                return False
+
+            @property
+            def ordered(self):
+                return True
+
+            def __len__(self):
+                return len(self.examples)
+
+            def __iter__(self, with_key=False):
+                c = [0]
+                self.counters.append(c)
+                for ex in self.examples:
+                    c[0] += 1
+                    yield ex
+        return _Src(examples)
+
+
+def make_bucket_ds(src, p, drop):
+    return src.batch_dynamic_time_series_bucket(
+        batch_size=p['batch_size'], len_key='len', max_padding_rate=p['rate'], max_total_size=p['mts'],
+        expiration=p['expiration'], max_buffered_examples=p['mbe'], drop_incomplete=drop,
+        sort_key='len' if p['sort'] else None, reverse_sort=p.get('reverse', False))
+
+
+def run_two_iterators(seq, p, word):
+    """Two iterators over ONE bucket dataset object, next() calls interleaved as `word` says. Returns per iterator
+    (batches, pulls at each emission)."""
+    src = CountingSource([{'id': i, 'len': n} for i, n in enumerate(seq)])
+    ds = make_bucket_ds(src, p, False)
+    its = [iter(ds), iter(ds)]
+    outs = [([], []), ([], [])]
+    done = [False, False]
+    order = list(word) + [0, 1] * (len(seq) + 2)
+    for w in order:
+        if all(done):
+            break
+        if done[w]:
+            continue
+        try:
+            b = next(its[w])
+        except StopIteration:
+            done[w] = True
+            continue
+        # the counter of iterator w is the w-th created one that belongs to it: identify by creation order per iterator
+        outs[w][0].append([(ex['id'], ex['len']) for ex in b])
+        outs[w][1].append(None)
+    return outs, src.counters
+
+
+def run_bucket(seq, p, drop, via_copy=False):
     """Returns (batches as lists of (id, len), pulls at each emission)."""
     import lazy_dataset
     pulls = [0]
@@ -40,6 +106,13 @@ def run_bucket(seq, p, drop):
         return ex
 
     ds = lazy_dataset.new([{'id': i, 'len': n} for i, n in enumerate(seq)]).map(spy)
+    if via_copy:
+        ds = make_bucket_ds(ds, p, drop).copy()
+        out, at = [], []
+        for batch in ds:
+            out.append([(ex['id'], ex['len']) for ex in batch])
+            at.append(pulls[0])
+        return out, at, pulls[0]
     ds = ds.batch_dynamic_time_series_bucket(
         batch_size=p['batch_size'], len_key='len', max_padding_rate=p['rate'], max_total_size=p['mts'],
         expiration=p['expiration'], max_buffered_examples=p['mbe'], drop_incomplete=drop,
@@ -100,6 +173,10 @@ def check(seq, p):
             if pulled - 1 > last or pulled < len(seq):
                 fired.add('expiry-or-overflow')
         max_open = max(max_open, pulled - (delivered - len(b)))
+    out_c, at_c, _ = run_bucket(seq, p, False, via_copy=True)
+    if out_c != out or at_c != at:
+        raise Violation('copy-behaves-differently', f'{desc}\ncopy(): batches {out_c} emitted after {at_c} pulls\n'
+                                                    f'original: {out} after {at}')
     out_d, _, total_d = run_bucket(seq, p, True)
     want_d = [b for b in out if completed(b, p)]
     if out_d != want_d:
@@ -111,11 +188,24 @@ def check(seq, p):
     return fired, n_distinct_groups, max_open
 
 
+def check_two(seq, p, word):
+    """Each of two interleaved iterators over one dataset object must deliver exactly what a lone iterator does."""
+    desc = f'lengths={list(seq)} params={p} interleaving={word}'
+    lone, _, _ = run_bucket(seq, p, False)
+    outs, counters = run_two_iterators(seq, p, word)
+    for w in (0, 1):
+        if outs[w][0] != lone:
+            raise Violation('iterators-interfere', f'{desc}\niterator {w} delivered {outs[w][0]}\na lone iterator '
+                                                   f'delivers {lone}')
+
+
 def nontrivial(seq, p, fired, nb, max_open):
     return nb >= 2 and bool(fired) and len(seq) >= 3 and max_open >= 2
 
 
 def run_case(case):
+    if 'word' in case:
+        check_two(tuple(case['lengths']), case['params'], case['word'])
     return check(tuple(case['lengths']), case['params'])
 
 
@@ -140,7 +230,10 @@ def st_case(draw):
         'sort': draw(st.booleans()),
         'reverse': draw(st.booleans()),
     }
-    return {'lengths': seq, 'params': p}
+    case = {'lengths': seq, 'params': p}
+    if draw(st.integers(0, 3)) == 0:
+        case['word'] = draw(st.lists(st.integers(0, 1), min_size=0, max_size=20))
+    return case
 
 
 def run_shard(tier, idx, nshards, rec, known):
@@ -156,6 +249,9 @@ def run_shard(tier, idx, nshards, rec, known):
                 case = {'lengths': list(seq), 'params': p}
                 try:
                     fired, nb, mo = check(seq, p)
+                    if p['mbe'] in (1, 2) and p['batch_size'] == 2 and n >= 2 and not p['sort']:
+                        check_two(seq, p, [0, 1] * n)
+                        check_two(seq, p, [0, 0, 1] * n)
                 except Violation as v:
                     if known.match(v.sig):
                         rec.known_hits[v.sig] += 1
